@@ -247,7 +247,10 @@ class Gen:
         if k == 'err':
             return ['dev', 'err', []]
         if k == 'rnd':
-            return r.choice((['dev', 'rnd', []], ['dev', 'rnd', [['lit', '%', 1]]]))
+            return r.choice((['dev', 'rnd', []], ['dev', 'rnd', [['lit', '%', 1]]],
+                             ['dev', 'rnd', []], ['dev', 'rnd', [['lit', '%', 0]]],
+                             ['dev', 'rnd', [['lit', '%', 0]]],
+                             ['dev', 'rnd', [['lit', '%', r.choice((-1, -2, -7))]]]))
         if k == 'timer':
             return ['dev', 'timer', []]
         return ['dev', 'peek', [['lit', '%', r.randint(0, 2000)]]]
@@ -380,6 +383,17 @@ class Gen:
                     self.cond(sc, depth - 1)]
         if x < 0.36 and depth > 0:
             return ['un', 'not', self.cond(sc, depth - 1)]
+        if x < 0.46:
+            # a condition that is a number, not a comparison: true when it is
+            # not zero - a bit test, a LONG, a fraction below one half
+            k = r.random()
+            if k < 0.35:
+                return ['bin', 'and', self.num_leaf(sc, 1), ['lit', '%', r.choice((1, 2, 4, 8))]]
+            if k < 0.7:
+                return self.num_leaf(sc, 3)
+            if k < 0.85 and self.p['floats']:
+                return ['lit', r.choice('!#'), r.choice((0.25, 0.5, -0.25, 0.0, 1.5))]
+            return self.num_expr(sc, min(depth, 1), 3)
         return ['bin', r.choice(CMP), self.num_expr(sc, depth, 3),
                 self.num_expr(sc, depth, 3)]
 
@@ -591,6 +605,23 @@ class Gen:
               'nextvar': r.random() < 0.5}
         if r.random() < 0.2:
             st['b'] = ['bin', '+', ['lit', '%', b - 1], ['lit', '%', 1]]
+        pre = []
+        tamper = []
+        if r.random() < 0.25:
+            # the limit (and sometimes the step) is a plain variable of the
+            # control variable's type which the body changes: both are
+            # evaluated once, before the first iteration
+            lim = self.new_scalar(sc, ty)
+            pre.append({'k': 'let', 'lv': ['var', lim], 'e': st['b'] if st['b'][0] == 'lit' else ['lit', '%', b]})
+            st['b'] = ['var', lim]
+            tamper.append({'k': 'let', 'lv': ['var', lim],
+                           'e': ['bin', r.choice(('+', '-')), ['var', lim], ['lit', '%', r.choice((1, 2, 5))]]})
+            if st['step'] is not None and r.random() < 0.5:
+                sv = self.new_scalar(sc, ty)
+                pre.append({'k': 'let', 'lv': ['var', sv], 'e': st['step']})
+                st['step'] = ['var', sv]
+                tamper.append({'k': 'let', 'lv': ['var', sv],
+                               'e': ['bin', '+', ['var', sv], ['lit', '%', 1]]})
         intstep = isinstance(step, int) or step is None
         sc.loopvars.append((v, min(a, b), max(a, b)) if (ty in '%&' and intstep)
                            else (v, 10**9, -10**9))
@@ -598,6 +629,9 @@ class Gen:
         st['body'] = self.block(sc, r.randint(1, 3), depth - 1)
         sc.in_loop.pop()
         sc.loopvars.pop()
+        if tamper:
+            st['body'] = tamper + st['body'] if r.random() < 0.5 else st['body'] + tamper
+            return pre + [st]
         return st
 
     def loop_stmt(self, sc, depth):
@@ -638,6 +672,15 @@ class Gen:
         # an inc at the end could be skipped by EXIT, which only ends the loop
         lt = ['bin', '<', ['var', c], ['lit', '%', n]]
         ge = ['bin', '>=', ['var', c], ['lit', '%', n]]
+        if r.random() < 0.3:
+            # the same conditions as plain numbers: n - c (or half of it, a
+            # fraction) is non-zero while c < n; c \ n is 0, then 1
+            lt = ['bin', '-', ['lit', '%', n], ['var', c]]
+            if self.p['floats'] and r.random() < 0.5:
+                lt = ['bin', '/', lt, ['lit', '%', 2]]
+            elif self.p['longs'] and r.random() < 0.5:
+                lt = ['bin', '*', lt, ['lit', '&', 70000]]
+            ge = ['bin', '\\', ['var', c], ['lit', '%', n]]
         if form == 'while':
             loop = {'k': 'while', 'cond': lt, 'body': body}
         elif form == 'do_pre_while':
@@ -737,9 +780,25 @@ class Gen:
             else:
                 e = self.num_expr(sc, depth, RANK[pty])
             if e[0] in ('var', 'idx', 'fld'):
-                # an lvalue in parentheses (or with a unary plus) is an
-                # expression: passed by value
-                e = ['par', e] if (pty == '$' or r.random() < 0.7) else ['un', 'pos', e]
+                # an lvalue in parentheses, with a unary plus or combined
+                # with a neutral element is an expression: passed by value
+                k = r.random()
+                if pty == '$':
+                    e = ['par', e] if k < 0.7 else ['bin', '+', e, ['lit', '$', '']]
+                elif k < 0.4:
+                    e = ['par', e]
+                elif k < 0.6:
+                    e = ['un', 'pos', e]
+                elif k < 0.7:
+                    e = ['bin', '+', e, ['lit', '%', 0]]
+                elif k < 0.8:
+                    e = ['bin', '*', e, ['lit', '%', 1]]
+                elif k < 0.9:
+                    e = ['bin', '-', e, ['lit', '%', 0]]
+                else:
+                    e = ['bin', r.choice(('+', '*')), ['lit', '%', 0 if k < 0.95 else 1], e]
+                    if e[1] == '+' and e[2][2] != 0 or e[1] == '*' and e[2][2] != 1:
+                        e = ['bin', '+', ['lit', '%', 0], e[3]]
             args.append(self.bounded(e, sc))
         return args
 
@@ -843,11 +902,43 @@ class Gen:
         dump = nest({'k': 'print', 'items': [[['lit', '$', f'<{m}>'], ';'], [elem, ';']], 'marker': m})
         return [fill, dump]
 
+    def call_and_look(self, sc):
+        """A SUB call followed by a PRINT of the variables that were handed
+        over (by reference or inside a by-value expression)."""
+        r = self.r
+        s = self.call_stmt(sc)
+        if s is None:
+            return None
+        seen = []
+        for a in s['args']:
+            while a[0] in ('par', 'un', 'bin'):
+                a = a[-1] if a[0] != 'bin' else (a[2] if a[2][0] != 'lit' else a[3])
+            if a[0] == 'var' and a not in seen and a[1] not in sc.consts \
+                    and a[1] not in self.global_consts:
+                try:
+                    if sc.var_type(a[1]) in '%&!#$':
+                        seen.append(a)
+                except KeyError:
+                    pass
+        if not seen:
+            return [s]
+        m = self.next_marker()
+        pr = {'k': 'print', 'marker': m,
+              'items': [[['lit', '$', f'<{m}>'], ';']] + [[a, ';'] for a in seen[:3]]}
+        pr['items'][-1][1] = ''
+        if self.p['multi'] and r.random() < 0.5:
+            return [{'k': 'multi', 'stmts': [s, pr]}]
+        return [s, pr]
+
     def statement(self, sc, depth):
         """Returns a list of statements."""
         r = self.r
         self.stmt_budget -= 1
         x = r.random()
+        if self.p['procs'] and r.random() < 0.08:
+            cl = self.call_and_look(sc)
+            if cl:
+                return cl
         if self.p['arrays'] and self.p['loops'] and depth > 0 and r.random() < 0.06:
             fd = self.fill_dump(sc)
             if fd:
@@ -856,7 +947,8 @@ class Gen:
             if x < 0.12:
                 return [self.if_stmt(sc, depth)]
             if x < 0.20 and self.p['loops']:
-                return [self.for_stmt(sc, depth)]
+                fs = self.for_stmt(sc, depth)
+                return fs if isinstance(fs, list) else [fs]
             if x < 0.26 and self.p['loops']:
                 return self.loop_stmt(sc, depth)
             if x < 0.31 and self.p['select']:
@@ -1492,7 +1584,10 @@ class Gen:
             # SUB / FUNCTION definitions written in the middle of the
             # module-level code (after the declarations)
             procs_at = r.randint(n_decl, len(main))
-        prog = {'tabs': r.random() < 0.2, 'deftypes': deftypes, 'procs_at': procs_at, 'strip_single': bool(self.p.get('deftype')) and r.random() < 0.6,
+        join = None
+        if r.random() < self.p.get('join', 0.25):
+            join = {'seed': r.randint(0, 10 ** 9), 'p': r.choice((0.1, 0.25, 0.5, 0.9))}
+        prog = {'tabs': r.random() < 0.2, 'deftypes': deftypes, 'procs_at': procs_at, 'join': join, 'strip_single': bool(self.p.get('deftype')) and r.random() < 0.6,
                 'types': self.types, 'main': main,
                 'procs': [{k: v for k, v in p.items()
                            if k in ('kind', 'name', 'params', 'static', 'body')}
@@ -1591,6 +1686,14 @@ def const_expr(r, depth, strings=False, vars=()):
         a = ['lit', '$', r.choice(('', 'a', 'B', 'ab', 'b', 'A'))]
         if depth > 0 and r.random() < 0.5:
             b = ['lit', '$', r.choice(('', 'a', 'B', 'ab'))]
+            if r.random() < 0.4:
+                # one string is a prefix of the other, followed by a character
+                # that sorts below or above a letter, a digit or a quote
+                stem = r.choice(('a', 'ab', '1.2', 'B', ''))
+                a = ['lit', '$', stem]
+                b = ['lit', '$', stem + r.choice((' ', '!', ' x', '!x', '#', 'z', '~', '0'))]
+                if r.random() < 0.5:
+                    a, b = b, a
             if r.random() < 0.5:
                 return ['bin', r.choice(CMP), a, b]
             return ['fn', 'len', [['bin', '+', a, b]]]
